@@ -850,7 +850,11 @@ impl World {
             let stale = matches!(d.origin, Origin::Noise("never"))
                 && d.t <= now
                 && self.sends.iter().rev().take(600).any(|r| r.round == self.round && r.seq == d.seq);
-            if stale {
+            // a response delayed by more than one whole round: by then the tracer may legitimately have re-used its
+            // sequence number (only the immediately preceding round is kept apart, C07), so it is indistinguishable
+            // from an answer to the current probe and belongs to none of the property's classes: not delivered
+            let ancient = matches!(d.origin, Origin::Resp(k) if self.sends[k].round + 1 < self.round) && d.t <= now;
+            if stale || ancient {
                 self.queue.remove(0);
             } else {
                 break;
